@@ -412,6 +412,24 @@ func c09Instances(add func(*Instance), thorough bool) {
 	c01Instances(wrap, thorough, 1)
 	c02Instances(wrap, thorough, 1)
 	c11Instances(wrap, thorough, 1)
+	// union of two run chunks with two runs each (short runs: the union can be inefficient as a run chunk)
+	for _, op := range []int{1, 8} { // or, lazyOR + repair (the in-place forms add value by value: thousands of paths, thorough tier)
+		add(&Instance{Func: "VerifC01ContainerBinop", Params: P("op", op, "ka", kR, "sa", 2, "kb", kR, "sb", 2, "L", 4, "inv", 1, "eff", 1)})
+	}
+	// whole-bitmap transforms: static Flip inside / across short runs, AddOffset64 splitting run, array and bitmap chunks
+	flipBase := P("L", 7, "eff", 1, "inv", 1, "xb", 0, "xm", -1)
+	add(&Instance{Func: "VerifC16Flip", Params: with(flipBase, "ak", 2, "akeys", 4, "ac0", 224, "ac1", 21, "sb", 56, "sm", 15, "eb", 60, "em", 15, "len", -1)})
+	add(&Instance{Func: "VerifC16Flip", Params: with(flipBase, "ak", 1, "akeys", 4, "ac0", 201, "sb", 0, "sm", 65535, "len", 3)})
+	add(&Instance{Func: "VerifC16Flip", Params: with(flipBase, "ak", 2, "akeys", 4, "acow", 1, "ac0", 2, "ac1", 1, "sb", 0, "sm", 262143, "len", 3)})
+	offBase := P("L", 7, "eff", 1, "inv", 1, "u", 0, "xb", 0, "xm", -1)
+	for _, o := range [][2]int{{65530, 15}, {-8, 15}, {65536, 0}} {
+		add(&Instance{Func: "VerifC16Offset", Params: with(offBase, "ak", 2, "akeys", 0, "acow", 1, "ac0", 2, "ac1", 201, "off", o[0], "offm", o[1])})
+		add(&Instance{Func: "VerifC16Offset", Params: with(offBase, "ak", 1, "akeys", 4, "ac0", 224, "off", o[0], "offm", o[1])})
+	}
+	for _, o := range [][2]int{{1, 0}, {63, 3}, {4095, 1}, {65535, 0}, {61376, 0}} {
+		add(&Instance{Func: "VerifC16Offset", Params: with(offBase, "ak", 2, "akeys", 4, "ac0", 100, "ac1", 21, "off", o[0], "offm", o[1])})
+	}
+	add(&Instance{Func: "VerifC16Offset", Params: with(offBase, "ak", 2, "akeys", 3, "ac0", 220, "ac1", 1, "off", 65530, "offm", 15)})
 }
 
 func c14Instances(add func(*Instance), thorough bool) {
